@@ -53,7 +53,8 @@ CONJUNCT_TEXT = {
 }
 
 
-JOPTS = ["-XX:ParallelGCThreads=2", "-XX:CICompilerCount=2"]
+# deep chains (sorted fills of up to 200 keys) make the structural audit recurse as deep as the tree
+JOPTS = ["-XX:ParallelGCThreads=2", "-XX:CICompilerCount=2", "-Xss512m"]
 
 
 def _tlc(ctx, module, cfg, **kw):
